@@ -37,8 +37,11 @@ func runC01(c *Ctx) {
 	ruleListIterationStable(c, "C01.12")
 	c08Literals(c, "C01.13")
 	ruleNoDeadStores(c, "C01.14", "storage")
+	ruleNoLastIterationWins(c, "C01.18", "storage", "engine")
 	c.Rule("C01.15", "rows read back are the rows stored: the row codec is symmetric per column type and its length prefixes are byte lengths (C08.4)")
 	checkCodecPair(c, "C01.15", "storage.(*Tuple).Encode", "storage.(*Tuple).Decode")
+	ruleFlushLoopComplete(c, "C01.16")
+	ruleNoGlobalState(c, "C01.17", "storage", "engine")
 }
 
 // leafCellSource: expression `S.field` where S has type *leafCell; returns key of S and the field name.
